@@ -210,7 +210,7 @@ func ruleT1(c *Ctx) {
 					if ok1 && ok2 && wv.Value != nil && kvv.Value != nil && wv.Value.ExactString() == kvv.Value.ExactString() {
 						names[s] = kv.Key
 					}
-				} else if id, ok := kv.Value.(*ast.Ident); ok && id.Name == "true" {
+				} else if isMemberValue(kv.Value) {
 					names[s] = kv.Key
 				}
 			}
@@ -573,4 +573,15 @@ func readOnlyRowsOf(p *packages.Package, tbl *types.Var) []*ast.KeyValueExpr {
 		}
 	}
 	return out
+}
+
+// isMemberValue: the value of a set literal's entry — `true`, or the empty struct `struct{}{}` / `{}`.
+func isMemberValue(e ast.Expr) bool {
+	switch x := e.(type) {
+	case *ast.Ident:
+		return x.Name == "true"
+	case *ast.CompositeLit:
+		return len(x.Elts) == 0
+	}
+	return false
 }
